@@ -54,11 +54,4 @@ Components(g) == Parts(g, GValid(g), {})
 \* the partition of the valid cells induced by a labelling lab : row -> (col -> label)
 LabelClasses(g, lab) ==
   {{q \in GValid(g) : lab[q[1]][q[2]] = lab[p[1]][p[2]]} : p \in GValid(g)}
-
-\* a set of cells that is not a rectangle (used for the "non-trivial" count only)
-IsRectangle(S) ==
-  LET rs == {p[1] : p \in S}  cs == {p[2] : p \in S} IN
-  /\ S = rs \X cs
-  /\ \A a \in rs, b \in rs : \A m \in a..b : m \in rs
-  /\ \A a \in cs, b \in cs : \A m \in a..b : m \in cs
 =============================================================================
